@@ -47,7 +47,8 @@ func c10Setup(seed int64, idx int) (*tcCtx, influxql.Valuer, *tcNode) {
 		valuer = nil
 	case 1:
 		c.useNow = true
-		valuer = &influxql.NowValuer{Now: fixedNow}
+		// no zone; the clock's reading itself may be carried in any location
+		valuer = &influxql.NowValuer{Now: []time.Time{fixedNow, fixedNow.In(tcZone("America/New_York")), fixedNow.In(time.FixedZone("", 5*3600+1800)), fixedNow.Local()}[rg.Intn(4)]}
 	case 2:
 		c.useNow = true
 		c.loc = tcZone(rg.Pick("America/New_York", "America/New_York", "Australia/Sydney", "Pacific/Auckland", "America/Los_Angeles", "Europe/London", "Pacific/Chatham"))
